@@ -9,6 +9,8 @@ import (
 	"errors"
 	"net/http"
 	"strings"
+
+	"google.golang.org/grpc/codes"
 )
 
 var c08BadNumbers = []string{"", "abc", "1.5", " 1", "0x10", "9223372036854775808", "--1"}
@@ -82,4 +84,58 @@ func Harness_C08_mask() {
 		vAssert(leaked, "error text present when not masked or not a 500")
 		vReach("shown")
 	}
+}
+
+// Harness_C08_statusMap: the gRPC-code mapping the property is anchored in, for every code value:
+// InvalidArgument / OutOfRange / AlreadyExists -> 400, NotFound -> 404, PermissionDenied -> 403,
+// Unauthenticated -> 401, FailedPrecondition -> 412, Aborted -> 409, ResourceExhausted -> 429,
+// Unavailable -> 503, Canceled / DeadlineExceeded -> 504, Unimplemented -> 501, anything else
+// (and any non-gRPC error) -> 500; an installed ErrorMapper takes precedence only when it claims
+// the error.
+//
+//verif:opt maxpaths=2000 reach=mapped
+func Harness_C08_statusMap() {
+	li := envLogInfo(&envBackend{}, &envReqLog{})
+	plain := vChoice("plain-error", 2) == 1
+	err, code := envBackendErr(plain)
+	mapper := vChoice("error-mapper", 3) // none | declines | claims with 418
+	switch mapper {
+	case 1:
+		li.instanceOpts.ErrorMapper = func(error) (int, bool) { return 200, false }
+	case 2:
+		li.instanceOpts.ErrorMapper = func(error) (int, bool) { return 418, true }
+	}
+	st := li.toHTTPStatus(err)
+	if mapper == 2 {
+		vAssert(st == 418, "an error mapper that claims the error decides")
+		vReach("mapped")
+		return
+	}
+	want := 500
+	if !plain {
+		switch code {
+		case codes.Canceled, codes.DeadlineExceeded:
+			want = 504
+		case codes.InvalidArgument, codes.OutOfRange, codes.AlreadyExists:
+			want = 400
+		case codes.NotFound:
+			want = 404
+		case codes.PermissionDenied:
+			want = 403
+		case codes.ResourceExhausted:
+			want = 429
+		case codes.Unauthenticated:
+			want = 401
+		case codes.FailedPrecondition:
+			want = 412
+		case codes.Aborted:
+			want = 409
+		case codes.Unimplemented:
+			want = 501
+		case codes.Unavailable:
+			want = 503
+		}
+	}
+	vAssert(st == want, "gRPC code mapped to the documented HTTP status")
+	vReach("mapped")
 }
